@@ -3,8 +3,8 @@
 usage: census_cmp.py <baseline.json> <current.json>
 Exit 0 and `CENSUS OK …` if the records are identical, or if they differ only in WHERE the sites are or in
 how local variables are named: every site is abstracted to (package, kind, expression with local identifiers
-replaced by `_`). Exit 1 (broken obligation) if an abstract class of kind panic / assert / coinsub / mapiter /
-index / div occurs MORE often than in the baseline. Exit 2 (soft difference: recorded, triggers the extended panic
+replaced by `_`). Exit 1 (broken obligation) if an abstract class of kind panic / assert / coinsub / div occurs
+MORE often than in the baseline. Exit 2 (soft difference: recorded, triggers the extended panic
 search, not an alarm by itself) if only classes of the other kinds were added or length-guard classes got fewer —
 that is what helper extraction, named constants and merged duplicate checks do. `CENSUS-DIFF` lines say which."""
 import sys, json, re, collections
@@ -55,7 +55,7 @@ def main():
     cb, cc = collections.Counter(map(ab, base)), collections.Counter(map(ab, cur))
     # kinds whose new occurrences are a broken obligation by themselves: they are what the model's Panic branches and
     # the determinism argument were written from, and behaviour-preserving rewrites practically never add one
-    HARD = {"panic", "assert", "coinsub", "mapiter", "index", "index?", "div", "div?", "coinsub?"}
+    HARD = {"panic", "assert", "coinsub", "coinsub?", "div", "div?"}
     hard, soft = [], []
     for k in sorted(set(cb) | set(cc)):
         pkg, kind, e = k
@@ -69,10 +69,10 @@ def main():
     for l in hard + soft:
         print(l)
     if hard:
-        print("CENSUS DIFFERS new site classes of kind panic/assert/coinsub/mapiter/index/div: %d (soft differences: %d; moved or renamed records: %d)" % (len(hard), len(soft), moved))
+        print("CENSUS DIFFERS new site classes of kind panic/assert/coinsub/div: %d (soft differences: %d; moved or renamed records: %d)" % (len(hard), len(soft), moved))
         return 1
     if soft:
-        print("CENSUS SOFT-DIFF %d classes (slice/must/conv/bigarith/sdkpanic/nilcall sites added or length guards merged); moved or renamed records: %d -> extended panic search" % (len(soft), moved))
+        print("CENSUS SOFT-DIFF %d classes (index/slice/mapiter/must/conv/bigarith/sdkpanic/nilcall sites added or length guards merged); moved or renamed records: %d -> extended panic search" % (len(soft), moved))
         return 2
     print("CENSUS OK relocated/renamed records=%d of %d; no new site class, no guard class lost" % (moved, len(cur)))
     return 0
